@@ -6,7 +6,7 @@ import datetime as dt
 from harness import chartlab as lab, common
 
 ID = "C08"
-LEAN_MODULES = ["PptxModel.Props.C08"]
+LEAN_MODULES = ["PptxModel.Props.C08", "PptxModel.Props.C08D"]
 RULE = (
     "seeded chart data as in C07 for every writable chart type, with series counts chosen to cross the A..Z / AA..ZZ "
     "boundaries (27, 53 and, thorough tier, 703 series), 1-4 category levels, XY / bubble series of unequal lengths incl. "
@@ -184,6 +184,48 @@ def combo_shrink(ctx, lines, impl, metas):
                 ctx.fail("replace-data-series-count", f"combination chart {nbar}+{nline} after replace_data with {target} series holds {nser} c:ser", {"bars": nbar, "lines": nline, "target": target})
 
 
+def date_serials(ctx, lines, impl, metas):
+    """`Category._excel_date_number` / `numeric_str_val` against `Serial.excelDateNumber` / `serialText` (`c08.serial`): the
+    serial number, its text and the date the serial decodes to, in both date systems, for dates across datetime's whole
+    range (the 1900 leap-year days, both epochs, year ends, leap days of century years, years 1 and 9999), as dates and as
+    datetimes; beside it the definition itself, from date arithmetic: serial 1 = 1900-01-01, serial 61 = 1900-03-01
+    (1900 system), serial 0 = 1904-01-01 (1904 system)"""
+    import datetime as dt
+
+    from pptx.chart.data import Categories, Category
+
+    rng = ctx.rng
+    edge = [(1900, 1, 1), (1900, 2, 27), (1900, 2, 28), (1900, 3, 1), (1900, 3, 2), (1899, 12, 30), (1899, 12, 31), (1904, 1, 1), (1903, 12, 31),
+            (1904, 1, 2), (1904, 2, 29), (2000, 2, 29), (2100, 2, 28), (2100, 3, 1), (1600, 2, 29), (1, 1, 1), (1, 12, 31), (9999, 12, 31), (9999, 1, 1),
+            (1970, 1, 1), (2024, 12, 31), (2400, 2, 29), (400, 2, 29), (100, 3, 1)]
+    n = 150 if ctx.quick else 4000
+    for k in range(len(edge) + n):
+        if k < len(edge):
+            y, m, d = edge[k]
+        else:
+            o = rng.choice([rng.randint(1, 3652059), rng.randint(693000, 696000), rng.randint(730000, 740000)])
+            v = dt.date.fromordinal(o); y, m, d = v.year, v.month, v.day
+        for flag in (False, True):
+            label = dt.date(y, m, d) if rng.random() < 0.6 else dt.datetime(y, m, d, rng.randint(0, 23), rng.randint(0, 59), rng.randint(0, 59))
+            cat = Category(label, Categories())
+            num_ = cat._excel_date_number(flag)
+            text = cat.numeric_str_val(flag)
+            # the date this serial stands for in its system
+            if flag:
+                back = dt.date(1904, 1, 1).toordinal() + num_
+            else:
+                back = dt.date(1899, 12, 31).toordinal() + (num_ - 1 if num_ > 60 else num_)
+            bd = dt.date.fromordinal(back) if 1 <= back <= 3652059 else None
+            case = {"date": (y, m, d), "date_1904": flag, "label": type(label).__name__}
+            if bd != dt.date(y, m, d) or (not flag and num_ == 60):
+                ctx.fail("date-serial", f"{label!r} in the {'1904' if flag else '1900'} date system is given serial {num_}, which stands for {bd}", case)
+            if float(text) != num_:
+                ctx.fail("date-serial-text", f"{label!r}: serial {num_} is written as {text!r}", case)
+            lines.append(f"c08.serial {y} {m} {d} {int(flag)}")
+            impl.append(f"{num_} {text} {y}-{m}-{d}"); metas.append(dict(case, what="date serial")); ctx.case(key=lines[-1] + type(label).__name__)
+            ctx.count("date-serial-" + ("1904" if flag else "1900"))
+
+
 def correspond(ctx):
     from pptx import Presentation
 
@@ -280,6 +322,7 @@ def correspond(ctx):
             lines.append(f"c08.col {n}"); impl.append(got); metas.append({"col": n}); ctx.case(key=lines[-1])
             if lab.col_num(got) != n:
                 ctx.fail("column-letters", f"column {n} -> {got!r}, which names column {lab.col_num(got)}", {"col": n})
+    date_serials(ctx, lines, impl, metas)
     res = ctx.driver.run(lines)
     for case, i, m in zip(metas, impl, res):
         ctx.traces += 1
